@@ -423,6 +423,14 @@ class C16(Spec):
                 q.unwindset = {f + '.0': n + 2 for f in LIST_LOOPS}
                 q.mem_gb = 12 if (n >= 3 or (n >= 2 and nm in ('free_all', 'jwks_free', 'free_bad'))) else 3
                 qs.append(q)
+        # load side of "no sequence leaks": after a load, exactly what the release path will free is
+        # live - an item that holds key bytes its release would skip (e.g. an oct item that became
+        # errored after k was decoded) shows up here (same harness as C07.shape.single.create)
+        q = ring_q('C16.load.own.single', ['SIDE_LOAD', 'SHAPE=2', 'ROUTE=0', 'PRE=0'],
+                   bounds={'document': 'single JWK object, members kty,k,alg,kid each absent or of any JSON type'}, checks='verdict', budget=1200)
+        q.unwindset = {f + '.0': 5 for f in LIST_LOOPS}
+        q.mem_gb = 7
+        qs.append(q)
         return qs
 
 
